@@ -71,6 +71,10 @@ def run(ctx):
     ctx.sample({"session_ops": traces[-1]["meta"]["session"]})
     P.validate(ctx, traces, "sessions")
 
+    # second binding: runs of the real model library recorded through the hooks (repository tests, examples)
+    from harness import hooks
+    hooks.check(ctx)
+
     # the other running modes: every run of an observation / calibration is this machine
     _modes.check_modes_dispatch(ctx)
     ctx.assumptions += [
@@ -80,6 +84,9 @@ def run(ctx):
 
 
 def replay(ctx, payload):
+    if payload["case"].get("kind") == "hooktrace":
+        from harness import hooks
+        return hooks.replay(ctx, payload)
     if payload["case"].get("kind") != "exposure":
         return _modes.replay(ctx, payload)
     return P.replay_case(ctx, payload)
